@@ -301,6 +301,8 @@ def op_evolve_exact(w, s):
         return "skipped"  # apply(..., canonicalise=True) asserts a sweep-ready centre
     model = e.obj.model
     dt = s["dt"]
+    if abs(dt) < 1e-12:
+        return "skipped"      # a step of length zero is not a propagation (the closed-form propagator asserts a non-zero exponent)
     space = s["space"]
     off = eh.meta.get("offset", 0.0)
     Hloc = kron_sum(local_vib_matrices(model, space, spec["holstein"]))
